@@ -118,7 +118,10 @@ func run(r *h.Run, sc scenario) result {
 			c.FC.AddFault(*sc.ConnF)
 		}
 		first := true
-		c.Peer.AutoReply = ch.Broker(c.N > 1, func(in packet.Generic, def []packet.Generic) []packet.Generic {
+		// the resumed connection is told "session present" in every other scenario
+		// only: what the client's own session still records is retransmitted either way
+		spResume := (len(sc.API)+len(sc.Acks)+len(sc.Terminal)+sc.Workers)%2 == 0
+		c.Peer.AutoReply = ch.Broker(c.N > 1 && spResume, func(in packet.Generic, def []packet.Generic) []packet.Generic {
 			if _, ok := in.(*packet.Connect); ok && c.N == 1 {
 				switch sc.Connack {
 				case "refused":
@@ -762,7 +765,7 @@ func apiSeqs(depth int) [][]string {
 
 func TestCheck(t *testing.T) {
 	r := h.New("C09", "fault_enumeration")
-	r.Rule("client.Client against a scripted in-memory broker: CONNACK {ok, refused, absent, wrong first packet} x acknowledgement behaviour {normal, held and released in reverse order, withheld, spurious ids first, wrong kind for the live id first, SUBACK failure code} x all API sequences of length <= 3 over {publish q0/q1/q2, subscribe, unsubscribe} (plus sampled length 4, sequential or from 2-8 goroutines) x terminal event {Close, Disconnect(), Disconnect(50ms), Disconnect(1ns) with acknowledgements outstanding, broker drops the connection then Close} x optional resume with the same session; API calls that passed their connected check at the moment the connection is lost (the loss is placed inside the session's NextID); for a deterministic subset every single connection-fault position (k-th client-side Send/Receive, before/after, incl. the CONNECT itself) and every session-method failure position is enumerated. Oracles over the recorded event log: SavePacket before first send, future success only after the scripted broker logged the matching acknowledgement, session content at rest, retransmission with DUP on resume, every future resolved after the terminal call (and after a broker-side close), terminal call returns (goroutine-profile confirmed), accessors never panic. Non-trivial = runs that create >= 1 future and end the connection with it unresolved, or complete >= 1 QoS>0 flow; distinct by scenario")
+	r.Rule("client.Client against a scripted in-memory broker: CONNACK {ok, refused, absent, wrong first packet} x acknowledgement behaviour {normal, held and released in reverse order, withheld, spurious ids first, wrong kind for the live id first, SUBACK failure code} x all API sequences of length <= 3 over {publish q0/q1/q2, subscribe, unsubscribe} (plus sampled length 4, sequential or from 2-8 goroutines) x terminal event {Close, Disconnect(), Disconnect(50ms), Disconnect(1ns) with acknowledgements outstanding, broker drops the connection then Close} x optional resume with the same session (CONNACK of the resumed connection with and without session-present); API calls that passed their connected check at the moment the connection is lost (the loss is placed inside the session's NextID); for a deterministic subset every single connection-fault position (k-th client-side Send/Receive, before/after, incl. the CONNECT itself) and every session-method failure position is enumerated. Oracles over the recorded event log: SavePacket before first send, future success only after the scripted broker logged the matching acknowledgement, session content at rest, retransmission with DUP on resume, every future resolved after the terminal call (and after a broker-side close), terminal call returns (goroutine-profile confirmed), accessors never panic. Non-trivial = runs that create >= 1 future and end the connection with it unresolved, or complete >= 1 QoS>0 flow; distinct by scenario")
 	r.Assume("packet ids are recovered from the client's own send log by unique payload / topic tags")
 	var base []scenario
 	terms := []string{"close", "disconnect0", "disconnectT", "broker-drop"}
